@@ -221,6 +221,13 @@ def decodeUncompressedB (T : Tables) (edition : Nat) (enforce : Enforce) (fuel :
         decodeUncompressedB T edition enforce fuel s4max bsq nbitsSeq lenConst from_ to k (j + 1) st2
           (if keep then filled :: acc else acc)
 
+/-- one copy's turn in the lock-step loop: `bufr_apply_tables2node(ddos[i], bseq[i], …, nodes[i])`, the
+copy's sequence being what it has walked (reversed) followed by what is left -/
+def stepFB (T : Tables) (edition : Nat) (p : DDO × BM) (q : List Node × List Node) : DDO × BM × Node × Bool :=
+  match q.2 with
+  | n :: _ => applyTables2nodeB T edition (q.1.reverse ++ q.2) p.1 p.2 n
+  | [] => (p.1, p.2, ({ desc := 0 } : Node), false)
+
 structure CompStB where
   r : R
   invalid : Bool := false
@@ -251,11 +258,7 @@ def decodeCompressedLoopB (T : Tables) (edition : Nat) (s4max : Nat) (g : Range)
         if st.todos.any (·.isEmpty) then .error .null else
         let heads := st.todos.filterMap (·.head?)
         let tails := st.todos.map (·.drop 1)
-        let applied := List.zipWith (fun (p : DDO × BM) (q : List Node × List Node) =>
-            match q.2 with
-            | n :: _ => applyTables2nodeB T edition (q.1.reverse ++ q.2) p.1 p.2 n
-            | [] => (p.1, p.2, ({ desc := 0 } : Node), false))
-          (List.zip st.ddos st.bms) (List.zip st.dones st.todos)
+        let applied := List.zipWith (stepFB T edition) (List.zip st.ddos st.bms) (List.zip st.dones st.todos)
         let ddos1 := applied.map (·.1)
         let bms1 := applied.map (·.2.1)
         let col1 := applied.map (·.2.2.1)
